@@ -105,6 +105,7 @@ const (
 	NodePath
 	NodeFractionDigits
 	NodeRequireInstance
+	NodeBase
 	NodeTypeRestrictionEnd
 	// End of Type Restrictions
 	NodeContact
@@ -131,7 +132,6 @@ const (
 	NodeKey
 	NodeUnique
 	NodeRefine
-	NodeBase
 	NodeYinElement
 	NodeValue
 	NodePosition
